@@ -191,6 +191,8 @@ pub struct PrettyItem {
     pub file: String,
     /// (one-based line number printed, text of the line as printed, marker line)
     pub excerpt: Option<(usize, String, String)>,
+    /// screen column (in chars) of the `|` of the three excerpt lines
+    pub bars: Option<(usize, usize, usize)>,
 }
 
 pub fn parse_pretty(out: &str) -> Result<(Vec<PrettyItem>, Option<usize>), String> {
@@ -216,6 +218,7 @@ pub fn parse_pretty(out: &str) -> Result<(Vec<PrettyItem>, Option<usize>), Strin
         let file = f.strip_prefix(" in file: ").ok_or_else(|| format!("bad file line: {f}"))?.to_string();
         i += 2;
         let mut excerpt = None;
+        let mut bars = None;
         // optional excerpt: "   |", " N | text", "   | markers"
         if let (Some(a), Some(b), Some(c)) = (lines.get(i), lines.get(i + 1), lines.get(i + 2)) {
             if a.trim_start().starts_with('|') && a.trim() == "|" {
@@ -223,10 +226,12 @@ pub fn parse_pretty(out: &str) -> Result<(Vec<PrettyItem>, Option<usize>), Strin
                 let n: usize = num.trim().parse().map_err(|_| format!("bad excerpt number: {b}"))?;
                 let marks = c.split_once(" | ").map(|x| x.1).or_else(|| c.split_once(" |").map(|x| x.1)).unwrap_or("");
                 excerpt = Some((n, rest.to_string(), marks.to_string()));
+                let bar = |l: &str| l.chars().position(|ch| ch == '|').unwrap_or(usize::MAX);
+                bars = Some((bar(a), bar(b), bar(c)));
                 i += 3;
             }
         }
-        v.push(PrettyItem { sev, title: title.to_string(), file, excerpt });
+        v.push(PrettyItem { sev, title: title.to_string(), file, excerpt, bars });
     }
     Ok((v, others))
 }
